@@ -126,6 +126,7 @@ class Program:
         self.facts = facts
         self.bodies = facts.bodies
         self._cfg = {}
+        self._stag = {}
         self.varidx = {}
         for name, a in facts.adts.items():
             for i, v in enumerate(a['variants']):
@@ -138,6 +139,42 @@ class Program:
 
     def has_loops(self, name):
         return bool(self.cfg(name).loops())
+
+    def static_len(self, name):
+        d = self.facts.data.get(name)
+        if not d:
+            return None
+        m = re.search(r'; (\d+)\]$', d['ty'])
+        return int(m.group(1)) if m else None
+
+    def static_tag(self, name, path):
+        """Is the Option at `path` (list of field indices) inside every element of static array `name` uniformly Some
+        ('pos') / None ('neg')?  Read from the type-checked initialiser (data fact), never from text."""
+        key = (name, tuple(path))
+        if key in self._stag:
+            return self._stag[key]
+        d = self.facts.data.get(name)
+        res = None
+        if d and isinstance(d['v'], list) and d['v']:
+            tags = set()
+            for row in d['v']:
+                x = row
+                try:
+                    for i in path:
+                        x = x[i]
+                except (IndexError, TypeError, KeyError):
+                    tags.add('?')
+                    break
+                if isinstance(x, dict) and re.search(r'(^core::|::)(std::)?(option::Option|prelude::v1)::Some$', x.get('call', '')):
+                    tags.add('pos')
+                elif isinstance(x, dict) and re.search(r'(^core::|::)(std::)?(option::Option|prelude::v1)::None$', x.get('path', '')):
+                    tags.add('neg')
+                else:
+                    tags.add('?')
+            if len(tags) == 1 and '?' not in tags:
+                res = tags.pop()
+        self._stag[key] = res
+        return res
 
     def enum_variants(self, tystr):
         """variant names of a repository enum given its (crate-relative) type string."""
@@ -162,6 +199,10 @@ class PX:
         self.unmodelled = {}       # external callee -> count (reported by clients: fail closed where it matters)
         self.undecided = {}        # boolean/tag terms that no domain understood -> count
         self.trace = trace
+        self.data_facts_used = set()
+        self.visited_fns = set()
+        self.cur_site = (None, None)
+        self.search_bounds_used = set()
         self.fid = 0
         from . import models
         self.models = models
@@ -584,7 +625,18 @@ class PX:
                 return 'neg'
         if c[0] == 'optref':
             return self.tag_of(st, self.read(st, c[1]))
-        return st.facts.get(('tag', self.tag_atom(c)))
+        f = st.facts.get(('tag', self.tag_atom(c)))
+        if f is None and c[0] == 'fld':
+            # data oracle: a field path into an element of a static table
+            path, x = [], c
+            while x[0] == 'fld' and isinstance(x[2], int):
+                path.append(x[2])
+                x = x[1]
+            if x[0] == 'elem' and x[1][0] == 'unk' and x[1][1][0] == 'ST':
+                f = self.p.static_tag(x[1][1][1], list(reversed(path)))
+                if f is not None:
+                    self.data_facts_used.add((x[1][1][1], tuple(reversed(path)), f))
+        return f
 
     def tag_atom(self, c):
         if c[0] in ('peekres', 'nextres'):
@@ -703,6 +755,7 @@ class PX:
         loops = cfg.loops() if top else {}
         modified = {h: cfg.modified_locals(bs) for h, bs in loops.items()}
         fid = self.new_frame(st)
+        self.visited_fns.add(fn)
         for i, a in enumerate(args):
             st.frames[fid][i + 1] = a
         results = []
@@ -911,6 +964,7 @@ class PX:
                 res.append((s2, rv))
             return res
         st.events.append(ev)
+        self.cur_site = (fn, bi)
         r = self.models.call(self, st, name, t, args, fid, fn)
         if r is not None:
             return r
